@@ -86,8 +86,8 @@ theorem scanStr_len : ∀ (cs : List Char) (st : SState) (s : Str) (r : List Cha
         | (have := ih _ _ _ h; simp only [List.length_cons]; omega)
         | cases h
 
-theorem lexUnit_len (neg : Bool) (n : Nat) (ds : List Nat) (r : List Char) (t : BTok) (r' : List Char)
-    (h : lexUnit neg n ds r = .ok (t, r')) : r'.length ≤ r.length := by
+theorem lexUnit_len (st : List Char) (neg : Bool) (n : Nat) (ds : List Nat) (r : List Char) (t : BTok) (r' : List Char)
+    (h : lexUnit st neg n ds r = .ok (t, r')) : r'.length ≤ r.length := by
   unfold lexUnit at h
   have hw := scanWord_len r
   generalize scanWord r = p at h hw
@@ -98,16 +98,16 @@ theorem lexUnit_len (neg : Bool) (n : Nat) (ds : List Nat) (r : List Char) (t : 
     | (simp only [Res.ok.injEq, Prod.mk.injEq] at h; rw [← h.2]; exact hw)
     | cases h
 
-theorem lexInt_len (neg : Bool) (n : Nat) (r : List Char) (t : BTok) (r' : List Char)
-    (h : lexInt neg n r = .ok (t, r')) : r' = r := by
+theorem lexInt_len (st : List Char) (neg : Bool) (n : Nat) (r : List Char) (t : BTok) (r' : List Char)
+    (h : lexInt st neg n r = .ok (t, r')) : r' = r := by
   unfold lexInt at h
   split at h
   · cases h
   · simp only [Res.ok.injEq, Prod.mk.injEq] at h; exact h.2.symm
 
 /-- The rest after a number is a suffix of what the digit loop left. -/
-theorem lexNumber_len (neg : Bool) (cs : List Char) (t : BTok) (r' : List Char)
-    (h : lexNumber neg cs = .ok (t, r')) : r'.length ≤ (scanDigits 0 cs).2.length := by
+theorem lexNumber_len (st : List Char) (neg : Bool) (cs : List Char) (t : BTok) (r' : List Char)
+    (h : lexNumber st neg cs = .ok (t, r')) : r'.length ≤ (scanDigits 0 cs).2.length := by
   unfold lexNumber at h
   revert h
   cases scanDigits 0 cs with
@@ -115,7 +115,7 @@ theorem lexNumber_len (neg : Bool) (cs : List Char) (t : BTok) (r' : List Char)
     simp only []
     intro h
     cases r1 with
-    | nil => simp only [] at h; rw [lexInt_len _ _ _ _ _ h]; exact Nat.le_refl _
+    | nil => simp only [] at h; rw [lexInt_len _ _ _ _ _ _ h]; exact Nat.le_refl _
     | cons c r2 =>
       simp only [] at h
       split at h
@@ -129,11 +129,11 @@ theorem lexNumber_len (neg : Bool) (cs : List Char) (t : BTok) (r' : List Char)
           simp only [] at h
           repeat' split at h
           all_goals first
-            | (have := lexUnit_len _ _ _ _ _ _ h; simp only [List.length_cons] at *; omega)
+            | (have := lexUnit_len _ _ _ _ _ _ _ h; simp only [List.length_cons] at *; omega)
             | cases h
       · split at h
-        · exact lexUnit_len _ _ _ _ _ _ h
-        · rw [lexInt_len _ _ _ _ _ h]; exact Nat.le_refl _
+        · exact lexUnit_len _ _ _ _ _ _ _ h
+        · rw [lexInt_len _ _ _ _ _ _ h]; exact Nat.le_refl _
 
 theorem ofRes_tok {x : Res (BTok × List Char)} {t : BTok} {r : List Char}
     (h : Step.ofRes x = .tok t r) : x = .ok (t, r) := by
@@ -204,7 +204,7 @@ theorem lexStep_shorter' (c : Char) (r : List Char) : (lexStep c r).shorterThan 
   · rw [if_pos h10]
     apply ofRes_shorter
     intro t r' h
-    have := lexNumber_len _ _ _ _ h
+    have := lexNumber_len _ _ _ _ _ h
     have := scanDigits_len r 0
     omega
   rw [if_neg h10]
@@ -212,7 +212,7 @@ theorem lexStep_shorter' (c : Char) (r : List Char) : (lexStep c r).shorterThan 
   · rw [if_pos h11]
     apply ofRes_shorter
     intro t r' h
-    have h1 := lexNumber_len _ _ _ _ h
+    have h1 := lexNumber_len _ _ _ _ _ h
     cases hv : digitVal c with
     | none => rw [hv] at h11; simp at h11
     | some d =>
@@ -380,7 +380,7 @@ theorem isWs_digitChar (d : Nat) : isWs (digitChar d) = false := by
   unfold digitChar; split <;> decide
 
 theorem lexStep_digit (d : Nat) (r : List Char) :
-    lexStep (digitChar d) r = Step.ofRes (lexNumber false (digitChar d :: r)) := by
+    lexStep (digitChar d) r = Step.ofRes (lexNumber (digitChar d :: r) false (digitChar d :: r)) := by
   unfold lexStep
   rw [if_neg (digitChar_ne' d _ (by decide)), if_neg (by rw [isWs_digitChar]; simp),
     if_neg (digitChar_ne' d _ (by decide)), if_neg (digitChar_ne' d _ (by decide)),
@@ -454,7 +454,7 @@ theorem natChars_cons (n : Nat) : ∃ d t, natChars n = digitChar d :: t := by
   | nil => exact absurd hd hne
   | cons d ds => exact ⟨d, ds.map digitChar, rfl⟩
 
-theorem lexStep_minus (r : List Char) : lexStep '-' r = Step.ofRes (lexNumber true r) := by
+theorem lexStep_minus (r : List Char) : lexStep '-' r = Step.ofRes (lexNumber ('-' :: r) true r) := by
   unfold lexStep
   rw [if_neg (by decide), if_neg (by decide), if_neg (by decide), if_neg (by decide),
     if_neg (by decide), if_neg (by decide), if_neg (by decide), if_neg (by decide),
@@ -462,7 +462,7 @@ theorem lexStep_minus (r : List Char) : lexStep '-' r = Step.ofRes (lexNumber tr
 
 /-- A non-negative number text (starting with a digit): the step is `lexNumber false`. -/
 theorem lex_number_nonneg (n : Nat) (tail : List Char) (t : BTok) (rest : List Char)
-    (h : lexNumber false (natChars n ++ tail) = .ok (t, rest)) :
+    (h : ∀ st, lexNumber st false (natChars n ++ tail) = .ok (t, rest)) :
     lex (natChars n ++ tail) = (lex rest).cons t := by
   obtain ⟨d, ds, hd⟩ := natChars_cons n
   rw [hd] at h ⊢
@@ -471,7 +471,7 @@ theorem lex_number_nonneg (n : Nat) (tail : List Char) (t : BTok) (rest : List C
   rfl
 
 theorem lex_number_neg (txt : List Char) (t : BTok) (rest : List Char)
-    (h : lexNumber true txt = .ok (t, rest)) :
+    (h : ∀ st, lexNumber st true txt = .ok (t, rest)) :
     lex ('-' :: txt) = (lex rest).cons t := by
   rw [lex_cons, lexStep_minus, h]
   rfl
@@ -481,12 +481,12 @@ theorem lex_int (n : Int) (s : List Char) (hn : -2147483647 ≤ n ∧ n ≤ 2147
   unfold printInt
   by_cases hneg : n < 0
   · simp only [hneg, if_true, List.cons_append]
-    have h := lexNumber_int true n.natAbs s (by omega) hs
+    have h := fun st => lexNumber_int st true n.natAbs s (by omega) hs
     rw [lex_number_neg _ _ _ h]
     congr 2
     simp; omega
   · simp only [hneg, if_false]
-    have h := lexNumber_int false n.natAbs s (by omega) hs
+    have h := fun st => lexNumber_int st false n.natAbs s (by omega) hs
     rw [lex_number_nonneg _ _ _ _ h]
     congr 2
     simp; omega
@@ -510,18 +510,21 @@ theorem lex_dim (H : ScaledRoundTrip) (s : Int) (rest : List Char)
   by_cases hneg : s < 0
   · rw [printNoUnits_neg s hneg]
     simp only [List.cons_append, List.append_assoc]
-    have h1 := lexNumber_scaled H true s.natAbs ['p', 't'] rest (by decide) (by simp)
-    have h2 := lexUnit_pt H true s.natAbs (by omega) rest hr
-    rw [h2] at h1
+    have h1 : ∀ st, lexNumber st true (printNoUnits (s.natAbs : Int) ++ (['p', 't'] ++ rest)) =
+        .ok (.dim ((if true = true then -1 else 1) * (s.natAbs : Int)), rest) := fun st => by
+      rw [lexNumber_scaled H st true s.natAbs ['p', 't'] rest (by decide) (by simp)]
+      exact lexUnit_pt H st true s.natAbs (by omega) rest hr
     simp only [List.cons_append, List.nil_append] at h1 ⊢
     rw [lex_number_neg _ _ _ h1]
     congr 2
     simp; omega
   · have e : s = (s.natAbs : Int) := by omega
     rw [e, printNoUnits_nonneg]
-    have h1 := lexNumber_scaled H false s.natAbs ['p', 't'] rest (by decide) (by simp)
-    have h2 := lexUnit_pt H false s.natAbs (by omega) rest hr
-    rw [h2, printNoUnits_nonneg] at h1
+    have h1 : ∀ st, lexNumber st false (printNoUnits (s.natAbs : Int) ++ (['p', 't'] ++ rest)) =
+        .ok (.dim ((if false = true then -1 else 1) * (s.natAbs : Int)), rest) := fun st => by
+      rw [lexNumber_scaled H st false s.natAbs ['p', 't'] rest (by decide) (by simp)]
+      exact lexUnit_pt H st false s.natAbs (by omega) rest hr
+    rw [printNoUnits_nonneg] at h1
     simp only [List.append_assoc, List.cons_append, List.nil_append] at h1 ⊢
     rw [lex_number_nonneg _ _ _ _ h1]
     congr 2
@@ -535,17 +538,20 @@ theorem lex_inf (H : ScaledRoundTrip) (s : Int) (o : InfOrder) (rest : List Char
   by_cases hneg : s < 0
   · rw [printNoUnits_neg s hneg]
     simp only [List.cons_append]
-    have h1 := lexNumber_scaled H true s.natAbs o.unit rest hu hne
-    have h2 := lexUnit_inf H true s.natAbs (by omega) o rest hr
-    rw [h2] at h1
+    have h1 : ∀ st, lexNumber st true (printNoUnits (s.natAbs : Int) ++ (o.unit ++ rest)) =
+        .ok (.inf ((if true = true then -1 else 1) * (s.natAbs : Int)) o, rest) := fun st => by
+      rw [lexNumber_scaled H st true s.natAbs o.unit rest hu hne]
+      exact lexUnit_inf H st true s.natAbs (by omega) o rest hr
     rw [lex_number_neg _ _ _ h1]
     congr 2
     simp; omega
   · have e : s = (s.natAbs : Int) := by omega
     rw [e, printNoUnits_nonneg]
-    have h1 := lexNumber_scaled H false s.natAbs o.unit rest hu hne
-    have h2 := lexUnit_inf H false s.natAbs (by omega) o rest hr
-    rw [h2, printNoUnits_nonneg] at h1
+    have h1 : ∀ st, lexNumber st false (printNoUnits (s.natAbs : Int) ++ (o.unit ++ rest)) =
+        .ok (.inf ((if false = true then -1 else 1) * (s.natAbs : Int)) o, rest) := fun st => by
+      rw [lexNumber_scaled H st false s.natAbs o.unit rest hu hne]
+      exact lexUnit_inf H st false s.natAbs (by omega) o rest hr
+    rw [printNoUnits_nonneg] at h1
     simp only [List.append_assoc, List.cons_append] at h1 ⊢
     rw [lex_number_nonneg _ _ _ _ h1]
     congr 2
